@@ -635,7 +635,12 @@ def correspond(run, corr):
     kinds += ["malformed"] * len(bad) + ["scripted"] * len(good)
     impl = run_hist(exe, lines)
     model = vf.run_driver(lines)
-    corr.compare(lines, impl, model, in_domain=in_domain)
+    # the item flags (TDMA_IFLG_*, read back by tdma_sched_flag_scan: observation token f<bits>) are not part of what the
+    # property states: a history on which model and code differ ONLY in these tokens is evidence, not a broken tie
+    noflags = lambda a: " ".join(t for t in a.split() if not re.fullmatch(r"f\d+", t))
+    flag_only = {l for l, a, b in zip(lines, impl, model) if a != b and noflags(a) == noflags(b)}
+    corr.distribution["histories differing only in the flag-scan observation (outside the property)"] = len(flag_only)
+    corr.compare(lines, impl, model, in_domain=lambda l: in_domain(l) and l not in flag_only)
     if corr.disagreements:
         d = corr.disagreements[0]
         small = shrink_disagreement(exe, d["request"])
